@@ -559,3 +559,104 @@ def c03_replay(v):
     b_st, empty = outs[0]
     b_st.frame.vars.update(cs=empty, k0=k0)
     v.oblige(b_st, v.spec_bool(REPLAY % {'k': 'k0', 'cs': 'cs'}, b_st), "C03:lemma:replay:established", "empty state")
+
+
+# ---------------------------------------------------------------------------------------------------- C13 (structural)
+
+def _repo_modules():
+    import os, ast
+    import skepticoin
+    root = os.path.dirname(skepticoin.__file__)
+    for dp, _dn, fns in os.walk(root):
+        for fn in fns:
+            if fn.endswith('.py'):
+                path = os.path.join(dp, fn)
+                yield path, ast.parse(open(path).read())
+
+
+MUTATORS = {'append', 'extend', 'insert', 'pop', 'remove', 'clear', 'sort', 'reverse', 'add', 'update', 'discard', 'setdefault', 'popitem'}
+
+
+def writers_of(attr_name):
+    """qualified names of the functions that assign, delete or in-place mutate an attribute called attr_name"""
+    import ast, os
+    found = set()
+    for path, tree in _repo_modules():
+        mod = os.path.splitext(os.path.basename(path))[0]
+
+        class W(ast.NodeVisitor):
+            def __init__(self):
+                self.stack = []
+
+            def visit_ClassDef(self, n):
+                self.stack.append(n.name)
+                self.generic_visit(n)
+                self.stack.pop()
+
+            def visit_FunctionDef(self, n):
+                self.stack.append(n.name)
+                self.generic_visit(n)
+                self.stack.pop()
+
+            def hit(self):
+                found.add(mod + '.' + '.'.join(self.stack))
+
+            def visit_Attribute(self, n):
+                if n.attr == attr_name and isinstance(n.ctx, (ast.Store, ast.Del)):
+                    self.hit()
+                self.generic_visit(n)
+
+            def visit_Subscript(self, n):
+                if isinstance(n.ctx, (ast.Store, ast.Del)) and isinstance(n.value, ast.Attribute) and n.value.attr == attr_name:
+                    self.hit()
+                self.generic_visit(n)
+
+            def visit_Call(self, n):
+                f = n.func
+                if isinstance(f, ast.Attribute) and f.attr in MUTATORS and isinstance(f.value, ast.Attribute) and f.value.attr == attr_name:
+                    self.hit()
+                self.generic_visit(n)
+
+            def visit_AugAssign(self, n):
+                if isinstance(n.target, ast.Attribute) and n.target.attr == attr_name:
+                    self.hit()
+                self.generic_visit(n)
+        W().visit(tree)
+    return found
+
+
+@LM.lemma("C13.writers", props=["C13"])
+def c13_writers(v):
+    """the pool invariant is an invariant of the program only if nothing outside the contracted writers touches the pool
+    or installs a chain state: repository-wide scan of the real source"""
+    st = State()
+    pool_writers = writers_of('transaction_pool')
+    allowed_pool = {'manager.ChainManager.__init__', 'manager.ChainManager.add_transaction_to_pool',
+                    'manager.ChainManager._cleanup_transaction_pool_for_coinstate',
+                    'manager.ChainManager._cleanup_transaction_pool_for_coinstate.is_valid'}
+    v.oblige(st, z3.BoolVal(pool_writers <= allowed_pool), "C13:lemma:writers-of-the-pool-are-under-contract",
+             "writers found: %s" % sorted(pool_writers))
+    cs_writers = {w for w in writers_of('coinstate') if w.startswith('manager.ChainManager')}
+    v.oblige(st, z3.BoolVal(cs_writers <= {'manager.ChainManager.set_coinstate', 'manager.ChainManager.__init__'}),
+             "C13:lemma:chain-state-of-the-manager-is-installed-only-by-set_coinstate", "writers found: %s" % sorted(cs_writers))
+    # lock discipline of the two public writers: every access to the guarded fields lies inside `with self.lock`
+    import ast, inspect, textwrap
+    import skepticoin.networking.local_peer  # noqa (import cycle)
+    import skepticoin.networking.manager as m
+    for fname in ('add_transaction_to_pool', 'set_coinstate', 'get_state'):
+        node = ast.parse(textwrap.dedent(inspect.getsource(getattr(m.ChainManager, fname)))).body[0]
+        outside = []
+
+        def walk(n, locked):
+            if isinstance(n, ast.With) and any(isinstance(i.context_expr, ast.Attribute) and i.context_expr.attr == 'lock' for i in n.items):
+                for b in n.body:
+                    walk(b, True)
+                return
+            if isinstance(n, ast.Attribute) and n.attr in ('coinstate', 'transaction_pool', 'last_known_valid_coinstate') and not locked:
+                outside.append(n.lineno)
+            for c in ast.iter_child_nodes(n):
+                walk(c, locked)
+        for b in node.body:
+            walk(b, False)
+        v.oblige(st, z3.BoolVal(not outside), "C13:lemma:lock-discipline:" + fname,
+                 "accesses to guarded fields outside `with self.lock` at relative lines %s" % outside)
